@@ -682,7 +682,7 @@ func (b *Builder) exotic() (*spec.T, *spec.T) {
 	case 1:
 		t = spec.Named("", "error")
 	case 2:
-		t = spec.Func("func() int")
+		t = spec.Func([]string{"func() int", "func(string, ...int) string", "func(...string)"}[b.draw(3, "func-type")])
 	case 3:
 		t = spec.Chan("chan", spec.Basic("int"))
 	default:
@@ -1520,6 +1520,23 @@ func (b *Builder) PointerTwin(name string) {
 	b.declare(name, w, v)
 	b.declare(name+"P", spec.Ptr(w), spec.Ptr(v))
 	b.label("skipcopy:pointer-twin")
+}
+
+// FuncTypeSignature (skipCopySameType programs) declares a method whose signature spells function
+// types - variadic ones included - inside unnamed containers, on both sides alike.
+func (b *Builder) FuncTypeSignature(name string) {
+	f := spec.Func([]string{"func(...string)", "func(string, ...int) string", "func(int) (string, error)", "func(func(...int)) []string"}[b.draw(4, "func-signature")])
+	var t *spec.T
+	switch b.draw(3, "func-signature-container") {
+	case 0:
+		t = spec.Map(spec.Basic("string"), f)
+	case 1:
+		t = spec.Slice(f)
+	default:
+		t = spec.Struct(spec.F("F", f), spec.F("N", spec.Basic("int")))
+	}
+	b.declare(name, t, t)
+	b.label("shape:func-type-signature")
 }
 
 // SharedHelperOverride declares two methods whose struct pairs hold the same named pair S -> T, so
